@@ -354,12 +354,15 @@ func (c *c02ctx) createStaking(t *rapid.T, via bool, what, fromAddr, stakingAddr
 	return r.Hex, c.feeOf(t, what, r.Hex), nil
 }
 
-func (c *c02ctx) createBinding(t *rapid.T, via bool, what, fromAddr string, holder, target massutil.Address, v int64, userFee int64) (string, massutil.Amount, error) {
+func (c *c02ctx) createBinding(t *rapid.T, via bool, what, fromAddr string, outs []*masswallet.BindingOutput, userFee int64) (string, massutil.Amount, error) {
 	if !via {
-		return c.w.env.W.CreateBindingTransaction(fromAddr, amountOf(userFee), []*masswallet.BindingOutput{{Holder: holder, BindingTarget: target, Amount: amountOf(v)}})
+		return c.w.env.W.CreateBindingTransaction(fromAddr, amountOf(userFee), outs)
 	}
-	r, err := c.w.apiSrv(t).CreateBindingTransaction(bg, &pb.CreateBindingTransactionRequest{FromAddress: fromAddr, Fee: fmtAmount(userFee),
-		Outputs: []*pb.CreateBindingTransactionRequest_Output{{HolderAddress: holder.EncodeAddress(), BindingAddress: target.EncodeAddress(), Amount: fmtAmount(v)}}})
+	req := &pb.CreateBindingTransactionRequest{FromAddress: fromAddr, Fee: fmtAmount(userFee)}
+	for _, o := range outs {
+		req.Outputs = append(req.Outputs, &pb.CreateBindingTransactionRequest_Output{HolderAddress: o.Holder.EncodeAddress(), BindingAddress: o.BindingTarget.EncodeAddress(), Amount: fmtAmount(o.Amount.IntValue())})
+	}
+	r, err := c.w.apiSrv(t).CreateBindingTransaction(bg, req)
 	if err != nil {
 		return "", massutil.ZeroAmount(), apiErr(err)
 	}
@@ -686,25 +689,51 @@ func propC02(t *rapid.T) {
 			c.drafts++
 			c.labels["staking-draft"] = true
 		case "binding":
-			ia := m.issued[rapid.IntRange(0, len(m.issued)-1).Draw(t, "bindIdx")]
-			holder, _ := massutil.NewAddressWitnessScriptHash(ia.Hash[:], config.ChainParams)
-			var target massutil.Address
-			var tb []byte
-			if rapid.Bool().Draw(t, "oldTarget") {
-				tb = rapid.SliceOfN(rapid.Byte(), 20, 20).Draw(t, "t20")
-				target, _ = massutil.NewAddressPubKeyHash(tb, config.ChainParams)
-			} else {
-				tb = rapid.SliceOfN(rapid.Byte(), 22, 22).Draw(t, "t22")
-				tb[20], tb[21] = 0, 24
-				target, _ = massutil.NewAddressBindingTarget(tb, config.ChainParams)
+			// one request may carry several binding outputs (different holders and targets): each must
+			// come out exactly as asked
+			nB := rapid.SampledFrom([]int{1, 1, 2, 3}).Draw(t, "bindOuts")
+			var bouts []*masswallet.BindingOutput
+			var wants []wantOut
+			var v int64
+			sizes := ""
+			for k := 0; k < nB; k++ {
+				ia := m.issued[rapid.IntRange(0, len(m.issued)-1).Draw(t, "bindIdx")]
+				holder, _ := massutil.NewAddressWitnessScriptHash(ia.Hash[:], config.ChainParams)
+				var target massutil.Address
+				var tb []byte
+				if rapid.Bool().Draw(t, "oldTarget") {
+					tb = rapid.SliceOfN(rapid.Byte(), 20, 20).Draw(t, "t20")
+					target, _ = massutil.NewAddressPubKeyHash(tb, config.ChainParams)
+				} else {
+					tb = rapid.SliceOfN(rapid.Byte(), 22, 22).Draw(t, "t22")
+					tb[20], tb[21] = 0, 24
+					target, _ = massutil.NewAddressBindingTarget(tb, config.ChainParams)
+				}
+				vk := genAmount(t, "bindAmt")
+				if vk < 10000 {
+					vk = 10000
+				}
+				if nB > 1 {
+					vk = vk/int64(nB) + 10000
+				}
+				dup := false
+				for _, o := range wants {
+					dup = dup || bytes.Equal(o.script, sim.BindingScript(ia.Hash, tb))
+				}
+				if dup {
+					continue
+				}
+				bouts = append(bouts, &masswallet.BindingOutput{Holder: holder, BindingTarget: target, Amount: amountOf(vk)})
+				wants = append(wants, wantOut{script: sim.BindingScript(ia.Hash, tb), value: vk})
+				v += vk
+				sizes += fmt.Sprintf("%dB ", len(tb))
 			}
-			v := genAmount(t, "bindAmt")
-			if v < 10000 {
-				v = 10000
+			if len(bouts) > 1 {
+				c.labels["binding-request-with-several-outputs"] = true
 			}
-			what := fmt.Sprintf("binding(value=%d target=%dB userFee=%d from=%q)", v, len(tb), userFee, fromAddr)
+			what := fmt.Sprintf("binding(outputs=%d value=%d targets=%suserFee=%d from=%q)", len(bouts), v, sizes, userFee, fromAddr)
 			c.reqs = append(c.reqs, what)
-			hexTx, fee, err := c.createBinding(t, via, what, fromAddr, holder, target, v, userFee)
+			hexTx, fee, err := c.createBinding(t, via, what, fromAddr, bouts, userFee)
 			w.logf("%s via-api=%v -> err=%v fee=%v", what, via, err, fee)
 			if fromAddr != "" && from == nil {
 				if err == nil {
@@ -721,7 +750,7 @@ func propC02(t *rapid.T) {
 				}
 				continue
 			}
-			mtx := c.verifyCreated(t, what, hexTx, nil, fee, []wantOut{{script: sim.BindingScript(ia.Hash, tb), value: v}}, userFee, true, from, "", nil, 0, elig)
+			mtx := c.verifyCreated(t, what, hexTx, nil, fee, wants, userFee, true, from, "", nil, 0, elig)
 			for _, in := range mtx.TxIn {
 				c.reserved[in.PreviousOutPoint] = true
 			}
